@@ -75,6 +75,9 @@ void mc_quiesce(uint64_t advance_ns = 0);
 // Virtual time that elapsed through timer *deviations* (a timed wait fired while other threads were
 // runnable, i.e. those threads were slow): not attributable to the code under test.
 uint64_t mc_deviation_ns();
+// Round every sleep (nanosleep family) UP to a multiple of ns: legal oversleeping that removes value
+// nondeterminism the harness does not own (e.g. random back-off jitter drawn with RDRAND).
+void mc_set_sleep_quantum(uint64_t ns);
 // Current scheduling step (monotonic counter of executed operations): usable as a timestamp.
 uint64_t mc_step();
 // True while inside a scheduled execution.
